@@ -56,6 +56,7 @@ type Ctx struct {
 	notes   []string
 	declSet map[string]bool
 	traces  map[string]Sl
+	curPC   string
 }
 
 func newCtx(eng *Engine, pkg *pkgInfo, fn string, props []string) *Ctx {
@@ -95,6 +96,27 @@ func (c *Ctx) assume(pc, fact string) {
 		return
 	}
 	c.facts = append(c.facts, f)
+}
+
+// assumeHere records a fact guarded by the path condition of the state that
+// is currently being executed: facts about fresh symbols may only be
+// satisfiable on that path (e.g. a substring's length under its bounds check).
+func (c *Ctx) assumeHere(fact string) {
+	pc := c.curPC
+	if pc == "" {
+		pc = tTrue
+	}
+	c.assume(pc, fact)
+}
+
+// assumeDef records an unconditional fact that merely DEFINES fresh symbols and
+// is satisfiable whatever the values of all other symbols (fresh array equal
+// to a concatenation, a view, a copy ...). Keeping these unguarded keeps the
+// quantified facts simple for the solvers.
+func (c *Ctx) assumeDef(fact string) {
+	if fact != tTrue {
+		c.facts = append(c.facts, fact)
+	}
 }
 
 // define introduces a named constant equal to term (keeps query text linear).
@@ -179,10 +201,8 @@ func (c *Ctx) freshShape(hint string, t types.Type, lift []string, top bool) Val
 	case kSlice:
 		et := t.Underlying().(*types.Slice).Elem()
 		arr := c.freshShape(hint+".a", et, append(append([]string{}, lift...), SInt), false)
-		off := "0"
-		if len(lift) > 0 {
-			off = c.fresh(hint+".off", liftSort(SInt, lift))
-		}
+		// WLOG a fresh symbolic slice is the view starting at offset 0 of its own array
+		off := zeroOf(liftSort(SInt, lift))
 		return Sl{arr, off, c.fresh(hint+".len", liftSort(SInt, lift)), c.fresh(hint+".nil", liftSort(SBool, lift)), et}
 	case kArray:
 		at := t.Underlying().(*types.Array)
